@@ -97,6 +97,14 @@ def corr(ctx, drv):
 def run_case(kind, p):
     msgs = []
     cy, cx, sy, sx, R, ri, n = (p[x] for x in ("cy", "cx", "sy", "sx", "R", "ri", "n"))
+    # the same centre, coordinate by coordinate as a float, a Python int or a NumPy integer where it is integral
+    ct = p.get("center_types")
+    if ct:
+        conv = {"float": float, "int": int, "np": np.int64}
+        if cy == int(cy):
+            cy = conv[ct[0]](cy)
+        if cx == int(cx):
+            cx = conv[ct[1]](cx)
     yg, xg = np.mgrid[0:sy, 0:sx]
     r = np.sqrt((yg - cy) ** 2 + (xg - cx) ** 2)
     eps = 1e-9
@@ -184,6 +192,12 @@ def search(ctx, boost=1, focus=()):
             p.update({"sy": 40, "sx": 44, "ri": 0.0, "n": 1, "R": float(np.round(rng.uniform(1.5, 9), 2))})
             p.update({"cy": float(np.round(rng.uniform(p["R"] + 1, 38 - p["R"]), 3)),
                       "cx": float(np.round(rng.uniform(p["R"] + 1, 42 - p["R"]), 3))})
+        if k % 5 == 2:      # one coordinate integral and passed as an integer, the other fractional
+            p["center_types"] = [["int", "float"], ["float", "int"], ["np", "float"], ["int", "np"]][(k // 5) % 4]
+            if (k // 5) % 2 == 0:
+                p["cy"], p["cx"] = float(int(p["cy"])), float(np.round(int(p["cx"]) + rng.choice([0.5, 0.3, 0.25]), 3))
+            else:
+                p["cx"], p["cy"] = float(int(p["cx"])), float(np.round(int(p["cy"]) + rng.choice([0.5, 0.3, 0.25]), 3))
         if k % 4 == 3:
             # call history: a call with an inner radius below 0.5 (centre pixel patched) before one with an inner radius in
             # [0.5, 1) or any other, same centre and image size
